@@ -236,6 +236,48 @@ def rule_raw_first(chk, fb):
            detail="%d allocating call(s), %d raw-sheet write(s); %s" % (len(A), len(R), "no raw write follows an allocation" if not bad else "a raw sheet can be written AFTER `%s` (line %s) picked a number: its part of the same name is then silently skipped and the sheet is attached to the other sheet's part" % (bad[0][0][1]["fn"].split("::")[-2] + "::" + bad[0][0][1]["fn"].split("::")[-1], bad[0][0][1]["ln"])))
 
 
+def rule_guard_scope(chk, fb, L, raw_field):
+    """`is_deserialized()` may decide whether to look at what deserialisation fills in - nothing else. State that a raw
+    sheet already has (its name, the defined names attached at open time, visibility ...) must be maintained for raw
+    sheets too."""
+    rg = chk.rule(
+        "C11.a.guard",
+        "the raw/loaded distinction only guards loaded content: in methods of the sheet, code that runs only when is_deserialized() is true touches no sheet field outside the set that deserialisation fills",
+        floor=0,
+    )
+    n = 0
+    for d, b in sorted(fb.mir.items()):
+        if b.get("self_ty") != WS or b["kind"] != "AssocFn":
+            continue
+        fl = Flow(fb, b)
+        cfg = None
+        for bi, bl in enumerate(b["blocks"]):
+            t = bl["t"]
+            if t["k"] != "switch":
+                continue
+            at = fl.atoms(t["op"], through_calls=False)
+            if not any(a[0] == "call" and a[1].endswith("::is_deserialized") for a in at) or len(at) != 1:
+                continue
+            cfg = cfg or CFG(b)
+            if len(t.get("targets", [])) != 1 or t["targets"][0][0] != 0:
+                continue
+            f_succ, t_succ = t["targets"][0][1], t["otherwise"]
+            only_true = cfg.reachable(t_succ) - cfg.reachable(f_succ)
+            touched = set()
+            for x in only_true:
+                bb = {"blocks": [b["blocks"][x]], "locals": b["locals"]}
+                touched |= direct_fields(bb, WS) | written_fields(bb, WS)
+                tt = b["blocks"][x]["t"]
+                if tt["k"] == "call" and fb.mir.get(tt.get("fn", ""), {}).get("self_ty") == WS:
+                    cb = fb.mir[tt["fn"]]
+                    touched |= direct_fields(cb, WS) | written_fields(cb, WS)
+            outside = sorted(f for f in touched if f not in L and f != raw_field)
+            chk.touch(d)
+            chk.ob(rg, "%s#%d" % (d.split("::", 2)[-1], n), not outside, where="%s:%s" % (b["file"], t.get("ln")),
+                   detail="code that runs only for a deserialised sheet touches %s%s" % (sorted(touched) or "no sheet field", "" if not outside else "; %s exist(s) for raw sheets as well and is skipped for them" % outside))
+            n += 1
+
+
 def run(chk, fb, tier):
     mat = find_materialiser(fb)
     chk.rule("C11.anchor", "the materialiser located by role (raw -> deserialized, &mut Worksheet)", floor=1)
@@ -433,6 +475,7 @@ def run(chk, fb, tier):
     from props import C12
 
     C12.rule_table_choice(chk, fb, "C11.c")
+    rule_guard_scope(chk, fb, L, raw_field)
     rule_positions(chk, fb)
     rule_raw_first(chk, fb)
     from props import C02
